@@ -45,13 +45,25 @@ def det_decls(tier: str, seed: int):
         d = shapes.build_decl(r, seq, "det_%s_%d" % (r, n), "mixed", "pool" if n < 100 else "all", rng)
         gap = d.gapless()
         tuples = corpus.mode_tuples(gap, with_range=True)
-        for t in rng.sample(tuples, 2):
+        picks = [{"as_str": "match", "from_str": "match", "FromStr": "match", "iter": "next_and_back"},
+                 {"as_str": "table", "from_str": "table", "FromStr": "table", "iter": "table"},
+                 rng.choice(tuples)]
+        for t in picks:
             cfg = corpus.legalize(corpus.cfg_all(t, names=corpus.CUSTOM_NAMES if rng.random() < 0.5 else None), d)
             # shuffle the order in which the features are listed and split them
             items = list(cfg.feats.items())
             rng.shuffle(items)
             cfg.feats = dict(items)
             cfg.split = [rng.randint(1, 6), rng.randint(1, 6)]
+            out.append((d, cfg))
+    # declarations in ascending order carrying the compile-time sorted check
+    for r, n in (("i16", 9), ("u8", 40)):
+        vs = [(-4 if r == "i16" else 2) + 2 * i + (i // 5) for i in range(n)]
+        d = shapes.build_decl(r, vs, "det_sorted_%s_%d" % (r, n), "dec", "none", rng)
+        for sv, sn in ((True, False), (True, True)):
+            cfg = corpus.legalize(corpus.cfg_all({"as_str": "match", "from_str": "table", "FromStr": "match", "iter": "next_and_back"}), d)
+            cfg.sorted_value = sv
+            cfg.sorted_name = sn and all(a.ident < b.ident for a, b in zip(d.variants, d.variants[1:]))
             out.append((d, cfg))
     return out
 
@@ -130,7 +142,7 @@ def run(tier: str, seed: int) -> int:
                         len(outs), total, wa[0], wb[0], i, oa[max(0, i - 60):i + 60], ob[max(0, i - 60):i + 60], head),
                     {"kind": "nondeterminism", "input": inp, "output_a": oa[:5000], "output_b": ob[:5000],
                      "first_difference": i, "where_a": wa[:3], "where_b": wb[:3]}))
-        if len(by_input) != len({(d.key(), c.key(), tuple(c.split), tuple(c.feats)) for d, c in decls}):
+        if len(by_input) != len({(d.key(), c.key(), tuple(c.split or ()), tuple(c.feats)) for d, c in decls}):
             pass
         expected_records = len(decls) * R * P
         if len(records) != expected_records:
